@@ -1,5 +1,6 @@
 import S2T.Drv.Util
 import S2T.Spec.Serial
+import S2T.Model.SerialState
 import S2T.Gen.Schema
 /-!
 Driver handler for C05.  Values travel as tagged JSON arrays:
@@ -165,12 +166,31 @@ def cli (j : Json) : Except String Json := do
   else
     return Json.mkObj [("j", emitVal (cliResults bin rs))]
 
+/-- op `c05.hist`: {"ops":[{"k":"ser","bin":bool,"v":value} | {"k":"deser","j":JSON value}]} ↦ what each call of the
+history returns in a process started with an empty registry (state machine of `S2T/Model/SerialState.lean`) -/
+def hist (j : Json) : Except String Json := do
+  let ops ← (← getArr j "ops").toList.mapM (fun o => do
+    let k ← getStr o "k"
+    if k == "ser" then
+      let b ← getBool o "bin"
+      let v ← parseVal (← o.getObjVal? "v")
+      pure (S2T.SerialState.Op.toJson b v)
+    else
+      let v ← parseVal (← o.getObjVal? "j")
+      pure (S2T.SerialState.Op.fromJson v))
+  let outs := S2T.SerialState.run S .pure [] ops
+  let emitOut : S2T.SerialState.Out → Json := fun o => match o with
+    | .json v => Json.mkObj [("j", emitVal v)]
+    | .back r => Json.mkObj (emitRes r)
+  return Json.mkObj [("outs", Json.arr (outs.map emitOut).toArray)]
+
 def handle (op : String) (j : Json) : Option (Except String Json) :=
   match op with
   | "c05.rt" => some (rt j)
   | "c05.deser" => some (deser j)
   | "c05.cell" => some (cell j)
   | "c05.cli" => some (cli j)
+  | "c05.hist" => some (hist j)
   | _ => none
 
 end S2T.Drv.C05
